@@ -160,12 +160,20 @@ func (t *T) ToV() V {
 // Reject is a reason-coded refusal of the interpreter. NoVerdict means the hunk is outside
 // the domain the model defines (malformed, ambiguous keyed member ...): the case is dropped.
 type Reject struct {
-	Hunk      int
-	Reason    string
-	NoVerdict bool
+	Hunk       int
+	Reason     string
+	NoVerdict  bool
+	UnderKeyed bool   // the expectation that failed lies inside a keyed set member ({"k":v} path element)
+	Path       string // path of the failing hunk
 }
 
-func (r *Reject) Error() string { return fmt.Sprintf("hunk %d: %s", r.Hunk, r.Reason) }
+func (r *Reject) Error() string {
+	s := fmt.Sprintf("hunk %d at %s: %s", r.Hunk, r.Path, r.Reason)
+	if r.UnderKeyed {
+		s += " [inside a keyed set member]"
+	}
+	return s
+}
 
 // Trace records, per hunk, what the interpreter did; used by C06 / C07.
 type Trace struct {
@@ -174,24 +182,34 @@ type Trace struct {
 }
 
 type applier struct {
-	h   Hunk
-	idx int
-	tr  *Trace
+	h     Hunk
+	idx   int
+	tr    *Trace
+	loose Reading // reading used when a whole-value replacement compares arrays (List = strict)
 }
 
 // ApplyHunks is the reference interpreter of strict hunks (Appendix A of DESIGN.md). Merge
 // hunks are not interpreted (NoVerdict).
 func ApplyHunks(c V, hunks []Hunk) (*T, *Trace, *Reject) {
+	return ApplyHunksLoose(c, hunks, List)
+}
+
+// ApplyHunksLoose is ApplyHunks, except that whole-value replacement hunks compare the value
+// found with the value expected under the given reading. The format documentation does not
+// say how the removed value of a whole-array replacement produced in set / multiset mode is
+// compared, so checks use the difference between the two modes to withhold a verdict.
+func ApplyHunksLoose(c V, hunks []Hunk, loose Reading) (*T, *Trace, *Reject) {
 	doc := FromV(Clone(c), -1)
 	tr := &Trace{RemovedOrigins: make([][]int, len(hunks)), Added: make([]int, len(hunks))}
 	for i, h := range hunks {
 		if h.Merge {
 			return nil, tr, &Reject{Hunk: i, Reason: "merge hunk not interpreted", NoVerdict: true}
 		}
-		ap := &applier{h: h, idx: i, tr: tr}
+		ap := &applier{h: h, idx: i, tr: tr, loose: loose}
 		nd, rej := ap.at(doc, h.Path)
 		if rej != nil {
 			rej.Hunk = i
+			rej.Path = PathJSON(h.Path)
 			return nil, tr, rej
 		}
 		doc = nd
@@ -227,7 +245,7 @@ func (ap *applier) at(node *T, path []PE) (*T, *Reject) {
 			if node.K == 'v' {
 				return nil, ap.rej("expected a value, found nothing")
 			}
-			if !eqList(node, h.Remove[0]) {
+			if Canon(node.ToV(), ap.loose) != Canon(h.Remove[0], ap.loose) {
 				return nil, ap.rej("remove mismatch")
 			}
 			ap.tr.RemovedOrigins[ap.idx] = append(ap.tr.RemovedOrigins[ap.idx], node.Origin)
@@ -330,6 +348,7 @@ func (ap *applier) at(node *T, path []PE) (*T, *Reject) {
 		}
 		nc, rej := ap.at(node.A[hit[0]], rest)
 		if rej != nil {
+			rej.UnderKeyed = true
 			return nil, rej
 		}
 		if nc.K == 'v' {
